@@ -7,7 +7,9 @@ Datagrams (only those the header parser accepts are in scope; the rest are count
   (c) non-canonical zero-codings of zerocoded basis datagrams (run split, wrap form `00 00 n`, trailing lone zero) and
       wire-first text fields with several trailing NULs.
 Histories: every sequence of length <= 3 (quick: 2) over {H: read header fields, B: touch msg.blocks, T: to_dict(),
-S: serialize} ending in S, under deferred parsing; eager parsing adds {S, T S, S S}.
+S: serialize} ending in S, under deferred parsing; eager parsing adds {S, T S, S S}. For every generator datagram also
+{XS, XBS, BXS, XBSS}, X = the same long-lived serializer / deserializers first reject unrelated work (half-built messages an addon
+tried to send, undecodable datagrams): pass-through of this datagram must not depend on what the codec objects did before.
 
 Clauses:
   unparsed-identical   never inspected / header-only inspected: S == d
@@ -120,7 +122,10 @@ def check_datagram(part: Part, d: bytes, origin: str, ser, de_lazy, de_eager, hi
             failed = False
             parsed_sig = None
             for op in h:
-                if op == "H":
+                if op == "X":
+                    for _lab, fn in _rejects():
+                        fn(ser, de_eager, de_lazy)
+                elif op == "H":
                     _ = (msg.name, msg.send_flags, msg.packet_id, msg.acks, msg.extra, msg.reliable, msg.zerocoded, msg.resent)
                 elif op in "BT":
                     inspected = True
@@ -259,6 +264,20 @@ def _family_cases(name: str) -> List[Tuple[str, bytes]]:
     return out
 
 
+_REJ = None
+
+
+def _rejects():
+    global _REJ
+    if _REJ is None:
+        g = _G or msggen.Gen(0)
+        _REJ = msggen.rejected_ops(g, "ChatFromViewer") + msggen.rejected_ops(g, "TestMessage")
+    return _REJ
+
+
+X_HISTS = ["XS", "XBS", "BXS", "XBSS"]
+
+
 def _work(unit):
     kind, name = unit
     g = _G
@@ -272,7 +291,7 @@ def _work(unit):
     hists = histories(_HLEN)
     if kind == "gen":
         for origin, d in _family_cases(name):
-            check_datagram(part, d, "gen", ser, de_lazy, de_eager, hists, de_check)
+            check_datagram(part, d, "gen", ser, de_lazy, de_eager, hists + X_HISTS, de_check)
         part.sample({"family": "gen", "template": name, "histories": hists[:6]}, limit=1)
     elif kind == "mut":
         tmpl = g.templates[name]
@@ -336,7 +355,8 @@ def run(run: Run):
     run.rule = ("datagrams: (a) every generator case of all %d templates laid out by the reference encoder; (b) on %d basis templates every "
                 "truncation, every single-byte substitution with {00,01,7F,80,FF} at every offset, 5 extensions, ack-count tampering; "
                 "(c) non-canonical zero-codings and wire-first byte fields with 0..3 trailing NULs; x every inspection history of length <= %d "
-                "over {H,B,T,S} ending in S (deferred) + {S,TS,SS,BS} (eager). distinct_nontrivial = distinct in-scope datagrams"
+                "over {H,B,T,S} ending in S (deferred) + {S,TS,SS,BS} (eager) + for generator datagrams {XS,XBS,BXS,XBSS} where X = rejected "
+                "serialize/deserialize calls on the same codec objects. distinct_nontrivial = distinct in-scope datagrams"
                 % (len(names), len(BASIS), _HLEN))
     run.assumptions += ["datagrams the header parser rejects are out of scope (counted)",
                         "byte-identity after a successful parse is required only when the zero-coding is canonical and no float decodes to NaN",
